@@ -69,6 +69,7 @@ func k5wait(d time.Duration) {
 type k5routed struct {
 	From, To uint64
 	Kind     byte // 'P' pid, 'A' alias, 'N' name
+	Name     string
 	Seq      int64
 }
 
@@ -102,7 +103,7 @@ func (c *k5core) MakeRef() gen.Ref {
 }
 func (c *k5core) RouteNodeDown(gen.Atom, error) {}
 
-func (c *k5core) record(from, to uint64, kind byte, m any) error {
+func (c *k5core) record(from, to uint64, kind byte, m any, name ...string) error {
 	seq, _ := m.(int64)
 	c.mu.Lock()
 	ch := c.hold[seq]
@@ -111,7 +112,11 @@ func (c *k5core) record(from, to uint64, kind byte, m any) error {
 		<-ch // the queue worker is stalled here (before the message reaches the mailbox)
 	}
 	c.mu.Lock()
-	c.got = append(c.got, k5routed{from, to, kind, seq})
+	nm := ""
+	if len(name) > 0 {
+		nm = name[0]
+	}
+	c.got = append(c.got, k5routed{from, to, kind, nm, seq})
 	c.cond.Broadcast()
 	c.mu.Unlock()
 	k5ping()
@@ -124,7 +129,7 @@ func (c *k5core) RouteSendAlias(from gen.PID, to gen.Alias, o gen.MessageOptions
 	return c.record(from.ID, to.ID[1], 'A', m)
 }
 func (c *k5core) RouteSendProcessID(from gen.PID, to gen.ProcessID, o gen.MessageOptions, m any) error {
-	return c.record(from.ID, 0, 'N', m)
+	return c.record(from.ID, 0, 'N', m, string(to.Name))
 }
 
 // holdSeq stalls the worker that will route message seq until the returned func is called.
@@ -228,8 +233,12 @@ func (e *k5end) Read(p []byte) (int, error) {
 		return 0, io.EOF
 	}
 	for {
-		if l.read < l.avail {
-			n := copy(p, l.buf[l.read:l.avail])
+		end := l.avail
+		if end > len(l.buf) {
+			end = len(l.buf) // released beyond what has been written so far: everything written is readable
+		}
+		if l.read < end {
+			n := copy(p, l.buf[l.read:end])
 			l.read += n
 			l.cond.Broadcast()
 			k5ping()
@@ -280,6 +289,9 @@ func (l *k5link) frames() []k5frame {
 		if n >= 49 && b[7] == 104 { // protoMessageAlias: from@8, alias ID[0..2]@25; the wire byte derives from ID[1]
 			f.From = binary.BigEndian.Uint64(b[8:16])
 			f.To = binary.BigEndian.Uint64(b[33:41])
+		}
+		if n >= 26 && b[7] == 102 { // protoMessageName: from@8, name length@25
+			f.From = binary.BigEndian.Uint64(b[8:16])
 		}
 		fs = append(fs, f)
 		off += n
@@ -401,6 +413,10 @@ func k5decodeSeq(l *k5link, fs []k5frame) {
 			off = 33
 		case 104:
 			off = 49
+		case 102:
+			if f.Off+26 <= f.End {
+				off = 26 + int(l.buf[f.Off+25])
+			}
 		}
 		if off < 0 || f.Off+off > f.End {
 			continue
